@@ -765,6 +765,19 @@ theorem whole_vector_kernels_footprint :
   · rintro vw (rfl | rfl | rfl) <;> exact ⟨(exactly_iff _ _).1 (by decide), (exactly_iff _ _).1 (by decide)⟩
   · intro b; cases b <;> exact ⟨(exactly_iff _ _).1 (by decide), (exactly_iff _ _).1 (by decide)⟩
 
+/-- **`_dyadic<T,3,3>`, `_dyadic<float,2,2>`** (after the repair): reads exactly the 3 (2) elements of each operand, writes
+    exactly `out[0..8]` (`out[0..3]`); the code before the repair wrote `out[9]` and read `b[3]` -/
+theorem dyadic_footprint (br : Branch) :
+    (∀ p, p ∈ offsets (dyadic33f br) 0 false ↔ p < 3) ∧ (∀ p, p ∈ offsets (dyadic33f br) 1 false ↔ p < 3) ∧
+    (∀ p, p ∈ offsets (dyadic33f br) 2 true ↔ p < 9) ∧
+    (∀ p, p ∈ offsets (dyadic33d br) 0 false ↔ p < 3) ∧ (∀ p, p ∈ offsets (dyadic33d br) 1 false ↔ p < 3) ∧
+    (∀ p, p ∈ offsets (dyadic33d br) 2 true ↔ p < 9) ∧
+    (∀ p, p ∈ offsets dyadic22f 0 false ↔ p < 2) ∧ (∀ p, p ∈ offsets dyadic22f 2 true ↔ p < 4) ∧
+    (9 ∈ offsets dyadic33f_before 2 true ∧ 3 ∈ offsets dyadic33f_before 1 false) := by
+  refine ⟨(exactly_iff _ _).1 ?_, (exactly_iff _ _).1 ?_, (exactly_iff _ _).1 ?_, (exactly_iff _ _).1 ?_,
+    (exactly_iff _ _).1 ?_, (exactly_iff _ _).1 ?_, (exactly_iff _ _).1 ?_, (exactly_iff _ _).1 ?_, ?_⟩ <;>
+    first | (cases br <;> decide) | decide
+
 theorem offsets_append (A B : List KAcc) (o : Nat) (w : Bool) :
     offsets (A ++ B) o w = offsets A o w ++ offsets B o w := by
   simp [offsets, List.filter_append, List.flatMap_append]
